@@ -34,7 +34,7 @@ def parseL4Case (j : Json) : Rt.Case :=
     prepareErr := gb j "prepareErr", runErr := gb j "runErr", txEnd := gs j "txEnd",
     finishers := strList j "finishers", concurrent := gn j "concurrent", op := gs j "op",
     dests := gs j "dests", calls := strList j "calls", cancelAt := optInt j "cancelAt",
-    preCtx := gs j "preCtx", extraSets := gn j "extraSets" }
+    preCtx := gs j "preCtx", extraSets := gn j "extraSets", fewCols := gb j "fewCols" }
 
 def parseL4Obs (j : Json) : Rt.Obs :=
   { returns := strList j "returns", events := strList j "events", eventCtx := strList j "eventCtx",
